@@ -199,6 +199,12 @@ func (u *vfUnit) Sample(v any) {
 }
 
 func (u *vfUnit) Violation(key, what string, witness any) {
+	if vfCapFired.Swap(false) {
+		// the wait this report is about ended on the wall-clock cap, not on a quiescent process:
+		// that decides nothing (a starved or frozen machine looks the same)
+		u.Inconclusive("wall-clock cap fired, no verdict: %s: %s", key, vfTrim(what, 1500))
+		return
+	}
 	u.mu.Lock()
 	defer u.mu.Unlock()
 	for _, v := range u.res.Violations {
